@@ -1,0 +1,49 @@
+//go:build verif
+
+// Verification hooks for property C02 (response framing and flushing).
+// Add-only; compiled only with -tags verif. Nothing here is called from
+// production code.
+
+package martian
+
+import (
+	"fmt"
+	"io"
+	"net/http"
+)
+
+// VerifC02Flusher is the flusher handed to the pattern flush writer.
+type VerifC02Flusher interface {
+	Flush() error
+}
+
+// VerifC02WriteHeaderOnlyResponse calls writeHeaderOnlyResponse.
+func VerifC02WriteHeaderOnlyResponse(w io.Writer, res *http.Response) error {
+	return writeHeaderOnlyResponse(w, res)
+}
+
+// VerifC02ShouldChunk calls shouldChunk.
+func VerifC02ShouldChunk(res *http.Response) bool { return shouldChunk(res) }
+
+// VerifC02IsHeaderOnlySpec calls isHeaderOnlySpec.
+func VerifC02IsHeaderOnlySpec(res *http.Response) bool { return isHeaderOnlySpec(res) }
+
+// VerifC02IsTextEventStream calls isTextEventStream.
+func VerifC02IsTextEventStream(res *http.Response) bool { return isTextEventStream(res) }
+
+// VerifC02NewPatternFlushWriter calls newPatternFlushWriter with the given
+// patterns, whichever of the two signatures (one pattern, or a variadic list
+// of patterns) the constructor has in this tree.
+func VerifC02NewPatternFlushWriter(w io.Writer, f VerifC02Flusher, patterns ...[2]byte) (io.Writer, error) {
+	switch ctor := any(newPatternFlushWriter).(type) {
+	case func(io.Writer, flusher, [2]byte) *patternFlushWriter:
+		if len(patterns) != 1 {
+			return nil, fmt.Errorf("newPatternFlushWriter takes exactly one pattern in this tree, got %d", len(patterns))
+		}
+		return ctor(w, f, patterns[0]), nil
+	case func(io.Writer, flusher, ...[2]byte) *patternFlushWriter:
+		return ctor(w, f, patterns...), nil
+	default:
+		return nil, fmt.Errorf("newPatternFlushWriter has unknown signature %T", ctor)
+	}
+}
